@@ -3555,14 +3555,22 @@ class Association(threading.Thread):
 
         # Run corresponding Service Class in SCP mode
         try:
-            # Clear out any C-CANCEL requests received beforehand
-            self.dimse.cancel_req = {}
-            # In case the SCP calls one of the send_* methods
-            self._is_paused = True
+            # N-EVENT-REPORT requests are served in their own thread, possibly
+            #   while another operation is in progress, so leave the state
+            #   belonging to that operation alone
+            own_thread = isinstance(msg, N_EVENT_REPORT)
+            if not own_thread:
+                # Clear out any C-CANCEL requests received beforehand
+                self.dimse.cancel_req = {}
+                # In case the SCP calls one of the send_* methods
+                self._is_paused = True
+
             service_class.SCP(msg, context)
-            self._is_paused = False
-            # Clear out any unacted upon requests received during
-            self.dimse.cancel_req = {}
+
+            if not own_thread:
+                self._is_paused = False
+                # Clear out any unacted upon requests received during
+                self.dimse.cancel_req = {}
         except NotImplementedError:
             # SCP isn't implemented
             LOGGER.error(
